@@ -277,12 +277,10 @@ Definition net_merge_step (h : h3) (x : npeer) (a : mrep * list hook) (id : bid)
   | None => (mk_mrep (m_st m) (m_height m) true, snd a)
   | Some d =>
       let own_bad :=
-        if signer_of h id =? np_id x then
-          match op_of_block x id with
-          | Some o => negb (delta_matches d (m_height m) (delta_add_op (m_st m) ([], []) o))   (* what the write path builds *)
-          | None => true                                                                          (* a block of x no operation of x made *)
-          end
-        else false in
+        match op_of_block x id with
+        | Some o => negb (delta_matches d (m_height m) (delta_add_op (m_st m) ([], []) o))     (* what the write path builds *)
+        | None => signer_of h id =? np_id x                                                       (* a block of x no operation of x made *)
+        end in
       let '(m1, hs) := merge_obs m d in
       (mk_mrep (m_st m1) (m_height m1) (m_bad m1 || own_bad), snd a ++ hs)
   end.
@@ -295,7 +293,7 @@ Definition model_eqb_peer (h : h3) (x : npeer) : bool :=
   && forallb (fun ob => match fst ob, snd ob with
                         | WPin _ _, 0 => false                         (* a pin always publishes *)
                         | _, 0 => true
-                        | _, id => memN id (np_merged x) && (signer_of h id =? np_id x)
+                        | _, id => memN id (np_merged x)        (* (two peers that publish the very same block share it) *)
                         end) (np_ops x)
   && list_eqb kv_eqb (sort_kv (pinset (m_st m))) (sort_kv (np_final x))
   && list_eqb t3_eqb (calls_canon (map tracker_call hs)) (calls_canon (np_calls x)).
